@@ -14,3 +14,7 @@ func registryConsistent(cm *connMatrix, c *conn) string {
 	}
 	return ""
 }
+
+// the map registry has no positions
+func connAt(cm *connMatrix, row, col int) *conn { return nil }
+func frontier(cm *connMatrix) int             { return 0 }
